@@ -142,6 +142,68 @@ fn merge_case(k: usize, order: &[usize]) -> Option<String> {
     None
 }
 
+// ---------------------------------------------------------------- C13: cfg expressions vs the documented rule
+#[derive(Clone, Debug)]
+enum Cfg { Os(char), Feat, Word, Any(Vec<Cfg>), All(Vec<Cfg>), Not(Box<Cfg>) }
+impl Cfg {
+    fn text(&self) -> String {
+        match self {
+            Cfg::Os(c) => format!("target_os = \"{}\"", c), Cfg::Feat => "feature = \"f\"".into(), Cfg::Word => "unix".into(),
+            Cfg::Any(v) => format!("any({})", v.iter().map(|e| e.text()).collect::<Vec<_>>().join(", ")),
+            Cfg::All(v) => format!("all({})", v.iter().map(|e| e.text()).collect::<Vec<_>>().join(", ")),
+            Cfg::Not(e) => format!("not({})", e.text()),
+        }
+    }
+    /// OS names outside / inside not(...), by the property's reading (independent of the implementation's stack walk)
+    fn names(&self, in_not: bool, acc: &mut Vec<char>, rej: &mut Vec<char>) {
+        match self {
+            Cfg::Os(c) => if in_not { rej.push(*c) } else { acc.push(*c) },
+            Cfg::Feat | Cfg::Word => {}
+            Cfg::Any(v) | Cfg::All(v) => for e in v { e.names(in_not, acc, rej) },
+            Cfg::Not(e) => e.names(true, acc, rej),
+        }
+    }
+}
+fn expected_kept(cfgs: &[Cfg], targets: &[char]) -> bool {
+    if targets.is_empty() { return true; }
+    let (mut acc, mut rej) = (vec![], vec![]);
+    for c in cfgs { c.names(false, &mut acc, &mut rej); }
+    !rej.iter().any(|r| targets.contains(r)) && (acc.is_empty() || acc.iter().any(|a| targets.contains(a)))
+}
+fn leaves() -> Vec<Cfg> { vec![Cfg::Os('a'), Cfg::Os('b'), Cfg::Feat, Cfg::Word] }
+fn grow(base: &[Cfg]) -> Vec<Cfg> {
+    let mut out = vec![];
+    for e in base { out.push(Cfg::Not(Box::new(e.clone()))); out.push(Cfg::Any(vec![e.clone()])); out.push(Cfg::All(vec![e.clone()])); }
+    for e in base { for f in base { out.push(Cfg::Any(vec![e.clone(), f.clone()])); out.push(Cfg::All(vec![e.clone(), f.clone()])); } }
+    out
+}
+/// is the guarded member generated? placement: 0 field, 1 variant, 2 type, 3 struct-variant field
+fn actually_kept(cfgs: &[Cfg], targets: &[char], placement: usize) -> Result<bool, String> {
+    let attrs: String = cfgs.iter().map(|c| format!("#[cfg({})] ", c.text())).collect();
+    let src = match placement {
+        0 => format!("#[typeshare]\npub struct S {{ pub keep: u8, {attrs} pub guarded: u8 }}\n"),
+        1 => format!("#[typeshare]\npub enum E {{ Keep, {attrs} Guarded }}\n"),
+        2 => format!("#[typeshare]\npub struct Keep {{ pub k: u8 }}\n#[typeshare]\n{attrs}\npub struct Guarded {{ pub g: u8 }}\n"),
+        _ => format!("#[typeshare]\n#[serde(tag = \"t\", content = \"c\")]\npub enum E {{ V {{ keep: u8, {attrs} guarded: u8 }} }}\n"),
+    };
+    let ctx = ParseContext { target_os: targets.iter().map(|c| c.to_string()).collect(), ..Default::default() };
+    let r = panic::catch_unwind(move || parse(&ctx, ParseFileContext { source_code: src, crate_name: CrateName::from("c".to_string()), file_name: "f.rs".into(), file_path: "f.rs".into() }));
+    let d = match r { Err(_) => return Err("typeshare panicked".into()), Ok(Err(e)) => return Err(format!("parse error {}", e)), Ok(Ok(None)) => return Err("no data".into()), Ok(Ok(Some(d))) => d };
+    Ok(match placement {
+        0 => d.structs.iter().any(|s| s.fields.iter().any(|f| f.id.original == "guarded")),
+        1 => d.enums.iter().any(|e| e.shared().variants.iter().any(|v| v.shared().id.original == "Guarded")),
+        2 => d.structs.iter().any(|s| s.id.original == "Guarded"),
+        _ => d.enums.iter().any(|e| e.shared().variants.iter().any(|v| match v { typeshare_core::rust_types::RustEnumVariant::AnonymousStruct { fields, .. } => fields.iter().any(|f| f.id.original == "guarded"), _ => false })),
+    })
+}
+fn tos_case(cfgs: &[Cfg], targets: &[char], placement: usize) -> Option<String> {
+    let want = expected_kept(cfgs, targets);
+    match actually_kept(cfgs, targets, placement) {
+        Err(e) => Some(e),
+        Ok(got) => if got != want { Some(format!("member guarded by {} is {} with --target-os {:?}, the documented rule says {}", cfgs.iter().map(|c| format!("#[cfg({})]", c.text())).collect::<Vec<_>>().join(" "), if got { "generated" } else { "dropped" }, targets, if want { "generated" } else { "dropped" })) } else { None }
+    }
+}
+
 fn permutations(n: usize) -> Vec<Vec<usize>> {
     if n == 0 { return vec![vec![]]; }
     let mut out = vec![];
@@ -206,6 +268,32 @@ fn main() {
             let _ = std::fs::remove_dir_all(&dir);
             println!("{{\"file\": \"Codable.swift\", \"content_identical\": {}, \"mtime_preserved\": {}}}", c1 == c2, m1 == m2);
             std::process::exit(if c1 == c2 && m1 == m2 { 0 } else { 1 });
+        }
+        Some("tos-search") | Some("tos-check") => {
+            let l0 = leaves(); let l1 = grow(&l0);
+            let mut d1: Vec<Cfg> = l0.clone(); d1.extend(l1.clone());
+            let l2 = grow(&d1);
+            let mut all: Vec<Vec<Cfg>> = vec![];
+            for e in d1.iter().chain(l2.iter()) { all.push(vec![e.clone()]); }
+            // depth 3: one more not / any / all around every depth-2 expression that contains a not
+            for e in l2.iter().filter(|e| e.text().contains("not(")) { all.push(vec![Cfg::Not(Box::new(e.clone()))]); all.push(vec![Cfg::Any(vec![e.clone()])]); }
+            // two cfg attributes on the same member
+            for e in d1.iter() { for f in d1.iter() { all.push(vec![e.clone(), f.clone()]); } }
+            let target_sets: Vec<Vec<char>> = vec![vec![], vec!['a'], vec!['b'], vec!['c'], vec!['a', 'b'], vec!['a', 'c'], vec!['b', 'c'], vec!['a', 'b', 'c']];
+            let report = |i: usize, t: usize, p: usize, m: String| { println!("WITNESS {{\"input\": {{\"case\": {}, \"targets\": {}, \"placement\": {}}}, \"fails\": {:?}}}", i, t, p, m); std::process::exit(1); };
+            if a[1] == "tos-check" {
+                let (i, t, p): (usize, usize, usize) = (a[2].parse().unwrap(), a[3].parse().unwrap(), a[4].parse().unwrap());
+                if let Some(m) = tos_case(&all[i], &target_sets[t], p) { report(i, t, p, m); }
+                println!("input passes"); std::process::exit(0);
+            }
+            let mut tried = 0u64;
+            for (i, cfgs) in all.iter().enumerate() { for (t, ts) in target_sets.iter().enumerate() {
+                for p in 0..4 { if p > 0 && i % 7 != 0 { continue; }   // every case at field level; every 7th also at the other levels
+                    tried += 1;
+                    if let Some(m) = tos_case(cfgs, ts, p) { report(i, t, p, m); } }
+            } }
+            println!("no failing input among {} (cfg attribute set, target list, placement) triples: {} attribute sets up to depth 3", tried, all.len());
+            std::process::exit(0);
         }
         _ => { eprintln!("usage: verif-replay rename <rule> <field|variant> <ident>"); std::process::exit(2); }
     }
